@@ -265,13 +265,14 @@ theorem column_values_typed (d : Doc) (h : WF d) (ds dt : Bool) (k : String) (f 
   obtain ⟨t, _, hconv⟩ := convertAttributes_mem' ha (aget_some_mem a k v hc)
   exact ⟨t, convertOne_declared hf hconv⟩
 
-/-- **C16 (feature dtype)**: a stored spot feature declared `isint="true"` is an `int64` column; one
+/-- **C16 (feature dtype)**: a stored spot feature declared `isint="true"` is an integer column (`int64`,
+or `uint64` when a value is ≥ 2^63 — numpy's inference); one
 declared `isint="false"` is a `float64` column unless some text is not a number (then TrackMate's
 string fallback applies). -/
 theorem C16_feature_dtype (d : Doc) (h : WF d) (ds dt : Bool) (out : Out) (hc : convert d ds dt = .ok out)
     (p : PropOut) (hp : p ∈ out.nodeProps) (f : Feat) (hf : mdLookup (attrsMd d) p.name = some f)
     (hk1 : p.name ≠ "TRACK_ID") (hk2 : p.name ≠ "ROI_coords") :
-    (f.isint = some true → p.col.kind = .int64) ∧
+    (f.isint = some true → p.col.kind = .int64 ∨ p.col.kind = .uint64) ∧
     (f.isint = some false → (∀ v ∈ p.col.cells.filterMap id, ∀ s, v ≠ .s s) → p.col.kind = .float64) := by
   obtain ⟨_, _, hcols, _⟩ := convert_out d h ds dt out hc
   have hmem : (p.name, p.col) ∈ columns ((finalGraph d ds dt).nodes.map (·.2)) := by
